@@ -161,14 +161,14 @@ def evEnv : Ev A → Env A
 
 open VaxisModel.Model.TextInputCl (TIC Ev) in
 /-- `Update` through the translated bodies (`none`: a run-time panic — or a statement without meaning). -/
-def tiUpdate (P : TiProg) (cl : List A → List (List A)) (isAlnum : List A → Bool) (m : TIC A) (ev : Ev A) : Option (TIC A) :=
+def tiRunUpdate (P : TiProg) (cl : List A → List (List A)) (isAlnum : List A → Bool) (m : TIC A) (ev : Ev A) : Option (TIC A) :=
   match runFn (tiCx1 P cl isAlnum) P.update (envOfTI m ++ evEnv ev) [.opaque] with
   | some (env', _) => tiOfEnv env'
   | none => none
 
 open VaxisModel.Model.TextInputCl (TIC) in
 /-- `SetContent` through the translated body. -/
-def tiSetContent (P : TiProg) (cl : List A → List (List A)) (isAlnum : List A → Bool) (m : TIC A) (s : List A) : Option (TIC A) :=
+def tiRunSetContent (P : TiProg) (cl : List A → List (List A)) (isAlnum : List A → Bool) (m : TIC A) (s : List A) : Option (TIC A) :=
   match runFn (tiCx0 cl isAlnum) P.setContent (envOfTI m) [.str s] with
   | some (env', _) => tiOfEnv env'
   | none => none
